@@ -2,6 +2,7 @@ import PC.Tie.Probe
 import PC.Spec.Pure
 import PC.Proofs.SupArms
 import PC.Spec.SupSpec
+import PC.Proofs.SupHealth
 /-! C10 — health probes: effective parameters are legal; fatal ⇔ threshold reached (pure part). -/
 namespace PC.Props.C10
 open PC.Probe PC.Go PC.Spec
@@ -116,6 +117,76 @@ example : ((runTrace (init .coarse false probed) fatalRun).2.filter fun o => isL
 set_option maxRecDepth 4000 in
 example : ((runTrace (init .coarse false probed) fatalRun).1.ps 0).health = .unknown ∧
     ((runTrace (init .coarse false probed) fatalRun).1.ps 0).restarts = 1 := by decide
+
+/-! ### Readiness over whole executions (every schedule, every sequence of events, every map order) -/
+
+/-- run a list of choices, each with its own resolution of the map orders -/
+def runH (s : Sys) : List (Choice × Hints) → Sys
+  | [] => s
+  | (c, h) :: rest => runH (step s c h) rest
+
+theorem runH_append (s : Sys) (a b : List (Choice × Hints)) : runH s (a ++ b) = runH (runH s a) b := by
+  induction a generalizing s with
+  | nil => rfl
+  | cons x a ih => obtain ⟨c, h⟩ := x; simp only [List.cons_append, runH]; exact ih _
+
+/-- no step of the execution `tr` from `s` writes a resetting state (Restarting / Launching /
+    Terminating) for process `n` -/
+def NoReset (n : Name) (s : Sys) : List (Choice × Hints) → Prop
+  | [] => True
+  | (c, h) :: rest => (∀ st, Obs.state n st ∈ (step s c h).obs → resets st = false) ∧ NoReset n (step s c h) rest
+
+/-- Ready at the end of an execution: either it was Ready at the beginning and was never reset, or a
+    success was delivered for it (a probe success or a ready log line) and it was not reset since. -/
+theorem ready_has_cause_from (n : Name) (s : Sys) (tr : List (Choice × Hints))
+    (hr : ((runH s tr).ps n).health = .ready) :
+    ((s.ps n).health = .ready ∧ NoReset n s tr) ∨
+    ∃ pre c h post, tr = pre ++ (c, h) :: post ∧ c.readies n = true ∧ NoReset n (runH s (pre ++ [(c, h)])) post := by
+  induction tr generalizing s with
+  | nil => exact Or.inl ⟨hr, trivial⟩
+  | cons x rest ih =>
+    obtain ⟨c, h⟩ := x
+    simp only [runH] at hr
+    rcases ih (step s c h) hr with ⟨h1, h2⟩ | ⟨pre, c', h', post, e, hc, hn⟩
+    · rcases ready_needs_success s c h n h1 with h0 | hc
+      · left
+        refine ⟨h0, fun st ho => ?_, h2⟩
+        cases hs : resets st with
+        | false => rfl
+        | true => exact absurd h1 (reset_forgets s c h n st ho hs)
+      · right
+        exact ⟨[], c, h, rest, rfl, hc, h2⟩
+    · right
+      refine ⟨(c, h) :: pre, c', h', post, by rw [e]; rfl, hc, ?_⟩
+      simpa [runH] using hn
+
+/-- **Ready only after a success, and readiness is forgotten at a restart or stop** (C10, global):
+    in every execution of the supervisor model from its initial state - any processes, any schedule,
+    any sequence of exits, probe results, output lines, timeouts and requests, any map order - a
+    process reported Ready at the end had a readiness success delivered (probe success or ready log
+    line), and since that delivery no state Restarting / Launching / Terminating was written for it. -/
+theorem ready_only_after_success (g : Gran) (ordered : Bool) (cfgs : List Cfg) (n : Name) (tr : List (Choice × Hints))
+    (hr : ((runH (init g ordered cfgs) tr).ps n).health = .ready) :
+    ∃ pre c h post, tr = pre ++ (c, h) :: post ∧ c.readies n = true ∧
+      NoReset n (runH (init g ordered cfgs) (pre ++ [(c, h)])) post := by
+  rcases ready_has_cause_from n _ tr hr with ⟨h0, _⟩ | h
+  · exfalso
+    have : ((init g ordered cfgs).ps n).health = .unknown := by
+      unfold Sys.ps init
+      simp only [List.getD_eq_getElem?_getD, List.getElem?_map]
+      cases cfgs[n]? <;> rfl
+    rw [this] at h0; cases h0
+  · exact h
+
+/-- a process that was reset and has had no success since is not Ready (contrapositive form used as an oracle) -/
+theorem not_ready_after_reset (s : Sys) (c : Choice) (h : Hints) (n : Name) (st : Status)
+    (ho : Obs.state n st ∈ (step s c h).obs) (hs : resets st = true) : ((step s c h).ps n).health ≠ .ready :=
+  reset_forgets s c h n st ho hs
+
+-- non-vacuity: the execution `fatalRun` (Ready by a probe success, then a fatal probe: stop and relaunch)
+-- passes through a Ready state, and is not Ready at the end because of the reset
+set_option maxRecDepth 4000 in
+example : ((runH (init .coarse false probed) ((fatalRun.take 5).map fun c => (c, {}))).ps 0).health = .ready := by decide
 
 end Dynamic
 
